@@ -404,7 +404,7 @@ def run_fama(ctx):
         # malformed: duplicate names, missing cardinality attribute, constraint on an unknown feature
         for i in range(40 if ctx.tier == "quick" else 400):
             m = fama_model(g, g.rng.choice([3, 5, 8]))
-            kind = g.rng.randrange(4)
+            kind = g.rng.randrange(5)
             g.count("fama_malformed", kind)
             feats = list(spec.spec_features(m["root"]))
             if kind == 0 and len(feats) > 1:
@@ -418,6 +418,12 @@ def run_fama(ctx):
                 d["kids"].append(X("requires", {"name": "bad", "feature": "__nope__", "requires": m["root"]["name"]}))
             elif kind == 3:
                 d["kids"].insert(0, X("excludes", {"name": "early", "feature": m["root"]["name"], "excludes": m["root"]["name"]}))
+            elif kind == 4:
+                # a relation element left without features
+                rels = [k for k in iter_xdoc(d) if k["tag"].lower() in ("setrelation", "binaryrelation")]
+                if rels:
+                    rel = g.rng.choice(rels)
+                    rel["kids"] = [k for k in rel["kids"] if k["tag"].lower() == "cardinality"]
             path = sc.path("xml")
             fmt.write_xdoc(d, path)
             check_fama_file(ctx, r, "malformed", path, None)
@@ -473,9 +479,9 @@ def check_fama_file(ctx, r, label, path, m, stats=None):
             diffs.append("constraints differ")
         if diffs:
             r.oracle_fail(label, case, "denotes:same-model", "; ".join(diffs[:4]))
-    if label != "malformed":
-        for fail in fmt.graph_wf(fm, written=fmt.written_names(m) if m is not None else None):
-            r.oracle_fail(label, case, "graph:" + fail[0], fail[1])
+    # whatever document the reader accepts (the malformed stream too): a proper tree
+    for fail in fmt.graph_wf(fm, written=fmt.written_names(m) if m is not None else None):
+        r.oracle_fail(label, case, "graph:" + fail[0], fail[1])
     if stats and os.path.exists(stats):
         want = parse_stats(stats)
         got = betty_stats(fm)
